@@ -58,17 +58,16 @@ command-line arguments) to completion with output `tr` (possibly ending in a div
 which only checked builds define) and the stack holds the frame peak, the emitted machine
 performs exactly `tr` followed by the terminal flag(s) on its committed timeline, and ends in
 the terminal loop. -/
-theorem core_semantic_preservation (cf : Core.Config) (params : List String) (args : List Int) (body : Core.S) (hw : 2 ≤ cf.w)
-    (hB : Core.funcLen cf.checked body + stdlibLength < 256 ^ cf.w) (hSE : Core.F0 cf args < 256 ^ cf.w)
-    (hnd : params.Nodup) (hlen : args.length = params.length)
-    (hwf : Core.wfS params body = true) (hyl : Core.youLevel body = true)
+theorem core_semantic_preservation (cf : Core.Config) (args : List Int) (pr : Core.CProg) (hw : 2 ≤ cf.w)
+    (hB : Core.progLen cf.checked pr + stdlibLength < 256 ^ cf.w) (hSE : Core.F0 cf args < 256 ^ cf.w)
+    (hwf : Core.wfProg pr = true) (hlen : args.length = pr.params.length)
     (fuel : Nat) (env' : Core.Env) (tr : List Ev) (res : Core.Res)
-    (hex : Core.exec (256 ^ cf.w) (8 * cf.w) fuel (Core.argEnv (256 ^ cf.w) params args) body = some (env', tr, res))
+    (hex : Core.srcRun cf fuel args pr = some (env', tr, res))
     (hck : res = .div0 → cf.checked = true)
-    (hroom : Core.pkS cf.w (Core.entryOff cf.w params) body ≤ cf.stackWords * cf.w + args.length * cf.w + cf.w) :
-    ∃ mEnd, Exec (sphinx (Core.coreProg cf params body)) (Core.coreInit cf args body) (tr ++ Core.terminalEvs res)
-      ⟨tntPc (Core.funcLen cf.checked body), mEnd⟩ :=
-  let ⟨m, h, _⟩ := Core.core_correct cf params args body hw hB hSE hnd hlen hwf hyl fuel env' tr res hex hck hroom
+    (hroom : Core.pkS cf.w (Core.entryOff cf.w pr.params) pr.body ≤ Core.roomOf cf args) :
+    ∃ mEnd, Exec (sphinx (Core.coreProg cf pr)) (Core.coreInit cf args pr) (tr ++ Core.terminalEvs res)
+      ⟨tntPc (Core.progLen cf.checked pr), mEnd⟩ :=
+  let ⟨m, h, _⟩ := Core.core_correct cf args pr hw hB hSE hwf hlen fuel env' tr res hex hck hroom
   ⟨m, h⟩
 
 /-- expressions: the emitted code computes `evalE` (the building block, for every placement) -/
@@ -84,12 +83,16 @@ theorem core_expression_correct {p : Prog} {ck : Bool} {B : Nat} (lib : Placed p
   let ⟨m', h1, h2, h3, _⟩ := (Core.cE_ok lib Γ env F D e pc o rout keep m hpl hB hr fr hv hb hpk ho).1 v hev
   ⟨m', h1, h2, h3⟩
 
-/-- non-vacuity: a concrete core program satisfies every hypothesis of the theorem and prints -/
+/-- non-vacuity: a concrete core program with a function call satisfies every hypothesis of the
+theorem (`int y = f(4); if (y == 12) putc 'Y' else putc 'N'; return;` with `f(a) = a * 3`) -/
 example :
-    let body : Core.S := .decl "x" (.lit 5) (.write (.bin .mul (.var "x") (.lit 3)) .ret)
-    Core.wfS [] body = true ∧ Core.youLevel body = true ∧ Core.pkS 2 (Core.entryOff 2 []) body ≤ 100 * 2 + 0 * 2 + 2 ∧
-    (Core.exec (256 ^ 2) 16 10 (Core.argEnv (256 ^ 2) [] []) body).map (fun r => (r.2.1, r.2.2)) = some (outs [49, 53], .returned) := by
-  refine ⟨by decide, by decide, by decide, ?_⟩
-  simp [Core.exec, Core.evalE, Core.upd, Core.aluOf, aluOp, wrapI, decimalW, digits, outs]
+    let pr : Core.CProg :=
+      { params := [], funs := [{ name := "f", params := ["a"], body := .retE (.bin .mul (.var "a") (.lit 3)) }],
+        body := .declCall "y" "f" [.lit 4]
+          (.ifb (.cmp .eq (.var "y") (.lit 12)) (.putc 89 .nil) (.putc 78 .nil) .ret) }
+    let cf : Core.Config := ⟨2, 100, true⟩
+    Core.wfProg pr = true ∧ Core.pkS 2 (Core.entryOff 2 pr.params) pr.body ≤ Core.roomOf cf [] ∧
+    (Core.srcRun cf 10 [] pr).map (fun r => (r.2.1, r.2.2)) = some ([Ev.out 89], .returned) := by
+  refine ⟨by decide, by decide, by decide +kernel⟩
 
 end HidVerif.Props.C01
